@@ -48,6 +48,16 @@ int main(int argc, char **argv) {
                 one(in, l);
             }
         }
+    } else if (argc >= 2 && !strcmp(argv[1], "ports")) {
+        /* port texts after a valid host: boundaries, leading zeros, junk, and digit strings that wrap into 1..65535 when narrowed */
+        static const char *PT[] = {"0", "1", "80", "65535", "65536", "99999", "100000", "000080", "0000000000000000000080", "00000", "+80", "-80", "80a", "0x50",
+                                   "65616", "131152", "2147483728", "2147483648", "4294967376", "4294967296", "4294967295", "4295032831", "8589934672",
+                                   "9223372036854775888", "9223372036854775808", "18446744073709551696", "18446744073709551616", "340282366920938463463374607431768211536"};
+        static const char *FR[] = {" h.example:%s", " [::1]:%s", " h:%s ", " h : %s"};
+        for (size_t f = 0; f < sizeof FR / sizeof *FR; f++) for (size_t k = 0; k < sizeof PT / sizeof *PT; k++) {
+            int l = snprintf((char *) in, sizeof in, FR[f], PT[k]);
+            if (l > 0) one(in, (size_t) l);
+        }
     } else if (argc >= 4 && !strcmp(argv[1], "rand")) {
         srand((unsigned) atoi(argv[2]) * 2654435761u + 13);
         int count = atoi(argv[3]);
